@@ -80,14 +80,15 @@ def from_bytes(insns, tries=(), handlers=()):
         tg, po = (), None
         if k in ("goto", "if"):
             tg = (off + 2 * i.branch,)
-        elif k == "switch":
-            po = off + 2 * i.branch
-            d = payload_desc(b, po)
-            tg = tuple(off + 2 * t for t in d[2])
-        elif k == "array":
+        elif k in ("switch", "array"):
             po = off + 2 * i.branch
         ins.append((off, i.length, k, tg, po))
         off += i.length
+    # switch targets: only when a switch payload STARTS at the encoded offset (the sweep decides where payloads start)
+    starts = {x[0]: x for x in ins if x[2] == "payload"}
+    for n, x in enumerate(ins):
+        if x[2] == "switch" and x[4] in starts and starts[x[4]][4][0] in ("packed", "sparse"):
+            ins[n] = (x[0], x[1], x[2], tuple(x[0] + 2 * t for t in starts[x[4]][4][2]), x[4])
     rt = []
     for (s, c, hi) in tries:
         h = handlers[hi]
@@ -354,13 +355,27 @@ def judge_c12(rm, obs):
 
 
 # --------------------------------------------------------------------------------------------------- C40
+def offset_class(rm, off):
+    """Input-side class of an encoded 31t offset at which no payload starts."""
+    if off < 0 or off >= rm.size:
+        return "outside-code"
+    i = rm.by_off.get(off)
+    if i is not None:
+        return "at-instruction"
+    for x in rm.ins:
+        if x[0] < off < x[0] + x[1]:
+            return "inside-payload" if x[2] == "payload" else "inside-instruction"
+    return "outside-code"
+
+
 def judge_c40(rm, obs, layout="aligned"):
-    """-> (violations, n_links_checked).  Offsets reported by the analysis vs offsets of the disassembler (obs['idx'])."""
+    """-> (violations, n_links_checked, {counter: n} of shapes deliberately not judged).  Offsets reported by the analysis vs offsets of the disassembler (obs['idx'])."""
     v = []
     pre = "misaligned-payload:" if layout in ("misaligned", "first-mis") else ""
     S = {o for o, _, _ in obs["idx"]}
     end = (obs["idx"][-1][0] + obs["idx"][-1][1]) if obs["idx"] else 0
     links = 0
+    skipped = {}
     for b in obs["blocks"]:
         if b["start"] not in S:
             v.append((pre + "block-start", "block start %#x is not a disassembler offset" % b["start"]))
@@ -381,8 +396,30 @@ def judge_c40(rm, obs, layout="aligned"):
         links += 1
         want_off = i[4]
         want = rm.by_off.get(want_off)
-        kind = want[4][0] if want and want[2] == "payload" else "none"
         sp = b["special"].get(i[0])
+        if want is None or want[2] != "payload":
+            # no payload starts at the encoded offset: nothing that starts elsewhere may be linked, and a switch may
+            # not gain case successors from some other payload
+            cls = offset_class(rm, want_off)
+            if sp is not None and (sp[0] is not None or sp[1] is not None) and sp[0] != want_off:
+                v.append((pre + "bogus-link:%s:%s" % (i[2], cls),
+                          "%s@%#x encodes offset %#x (%s), where no payload starts; get_special_ins is %s"
+                          % (i[2], i[0], want_off, cls, "the object the sweep yields at %#x: %r" % (sp[0], sp[1])
+                             if sp[0] is not None else "an object outside the sweep: %r" % (sp[1],))))
+            if i[2] == "switch" and _last_ins(rm, b) == i:
+                nxt = _block_of(obs["blocks"], i[0] + i[1])
+                allowed = {nxt["start"]} if nxt else set()
+                extra = set(b["childs"]) - allowed
+                if extra:
+                    if want_off % 4 == 2:
+                        skipped["bogus_succ_off2mod4_not_judged"] = skipped.get("bogus_succ_off2mod4_not_judged", 0) + 1
+                    else:
+                        v.append((pre + "bogus-succ:%s" % cls,
+                                  "switch@%#x encodes offset %#x (%s), where no payload starts, but its block has the "
+                                  "successors %s besides the fall-through" % (i[0], want_off, cls,
+                                                                            [hex(x) for x in sorted(extra)])))
+            continue
+        kind = want[4][0]
         key = pre + "link:%s:%s" % (i[2], "backward" if want_off < i[0] else "forward")
         if sp is None:
             v.append((key, "%s@%#x encodes payload offset %#x but its block has no special_ins entry" % (i[2], i[0], want_off)))
@@ -390,7 +427,7 @@ def judge_c40(rm, obs, layout="aligned"):
             v.append((key, "%s@%#x encodes payload offset %#x; get_special_ins is %s"
                       % (i[2], i[0], want_off, "the object the sweep yields at %#x" % sp[0] if sp[0] is not None
                          else "no object of the sweep (%r)" % (sp[1],))))
-        elif want is None or want[2] != "payload" or sp[1] != want[4]:
+        elif sp[1] != want[4]:
             v.append((key, "%s@%#x -> %#x: linked payload content %r, the code has %r (%s)"
-                      % (i[2], i[0], want_off, sp[1], want[4] if want else None, kind)))
-    return v, links
+                      % (i[2], i[0], want_off, sp[1], want[4], kind)))
+    return v, links, skipped
